@@ -20,7 +20,7 @@ from concurrent.futures import ProcessPoolExecutor, wait, FIRST_COMPLETED
 VERIF = os.path.dirname(os.path.dirname(os.path.abspath(__file__)))
 REPO = os.environ.get('OMBOTT_REPO', '/repo')
 EVIDENCE_DIR = os.path.join(VERIF, 'evidence')
-REPLAY_DIR = os.path.join(VERIF, 'replays')
+REPLAY_DIR = os.environ.get('VERIF_REPLAY_DIR') or os.path.join(VERIF, 'replays')
 KNOWN_FINDINGS = os.path.join(VERIF, 'known_findings.json')
 
 MASK = (1 << 64) - 1
